@@ -132,15 +132,7 @@ def case_iso(cs):
         seeded_run(t, cs)
         return run_digest(t.strategy)
 
-    try:
-        ref = [alone(k) for k in range(3)]
-    except Exception as e:
-        v, why = _w2case.classify_exc(e, spec)
-        return common.result(v, sig=sig, why=why, sample=sample)
-    ntr = sum(1 for e in ins.EV if e["k"] == "trade")
-    w = {"case_seed": cs, "desc": spec["desc"]}
-    if ref[0] != ref[2]:
-        return common.result(common.VIOL, sig=sig, nt=True, mech="c11_not_repeatable_in_process", witness=w, sample=sample)
+    # digests of everything handed to bt, taken BEFORE the first Backtest is constructed
     tpl = fresh()
     d_tpl = template_digest(tpl)
     d_in = {"data": frame_digest(data)}
@@ -148,6 +140,15 @@ def case_iso(cs):
         d_in[k] = frame_digest(v)
     for a in _frames_in_algos(tpl):
         d_in["algo:%d" % id(a)] = frame_digest(a)
+    w = {"case_seed": cs, "desc": spec["desc"]}
+    try:
+        ref = [alone(k) for k in range(3)]
+    except Exception as e:
+        v, why = _w2case.classify_exc(e, spec)
+        return common.result(v, sig=sig, why=why, sample=sample)
+    ntr = sum(1 for e in ins.EV if e["k"] == "trade")
+    if ref[0] != ref[2]:
+        return common.result(common.VIOL, sig=sig, nt=True, mech="c11_not_repeatable_in_process", witness=w, sample=sample)
 
     def inputs_ok(stage):
         common.bump(cnt, "input_digests", 1 + len(d_in))
@@ -163,6 +164,9 @@ def case_iso(cs):
                 return ("c11_data_mutated", dict(w, stage=stage, frame="frame held by an algo"))
         return None
 
+    bad = inputs_ok("after stand-alone constructions and runs")
+    if bad:
+        return common.result(common.VIOL, sig=sig, nt=True, cnt=cnt, mech=bad[0], witness=bad[1], sample=sample)
     try:
         for order in ([0, 1, 2], [2, 1, 0], [1, 0, 2]):
             bts = [mkbt(tpl, data, extras, k, "n%d" % k) for k in range(3)]
